@@ -169,6 +169,10 @@ pub struct CovCase {
     /// counting input unrelated to the input (other k-mers, fewer, or none at all) instead of the copies
     #[serde(default)]
     pub alt: Option<Vec<Rec>>,
+    /// one more record, a homopolymer with exactly this many windows: a k-mer of that multiplicity
+    /// (round numbers where lookup tables and narrow counters end: 255, 256, 1000, 1024, 65535, 65536, +-1)
+    #[serde(default)]
+    pub poly: Option<usize>,
 }
 
 pub fn check_cov(c: &CovCase) -> Verdict {
@@ -181,6 +185,14 @@ pub fn check_cov(c: &CovCase) -> Verdict {
         }
     }
     let input = io::write_input(dir.path(), "in", &c.unit, &Container::plain_fasta());
+    let mut unit = c.unit.clone();
+    if let Some(mult) = c.poly {
+        let r = Rec { id: "poly".into(), desc: None, seq: crate::util::Bytes(vec![b'A'; mult + c.k - 1]) };
+        all.push(r.clone());
+        unit.push(r);
+        v.class(format!("multiplicity-{}", mult));
+    }
+    let c = &CovCase { unit, poly: None, ..c.clone() };
     if let Some(a) = &c.alt {
         all = a.clone();
         v.class("cov-unrelated-counting-input");
@@ -220,7 +232,8 @@ impl Leg for Cov {
                 };
                 let p = RecParams { max_records: 3, scale: k, max_len: 60, degenerate_w: 1, bounds: [k, 0, 0], nuc_only: false };
                 let pa = RecParams { max_records: 3, scale: k, max_len: 40, degenerate_w: 3, bounds: [k, 0, 0], nuc_only: false };
-                (gen::records(p), prop_oneof![2 => Just(None), 1 => gen::records(pa).prop_map(Some)]).prop_map(move |(unit, alt)| CovCase { unit, copies, k, bin_size, bin_count, norm, threads, alt })
+                let poly = prop_oneof![3 => Just(None), 1 => (prop::sample::select(vec![255usize, 256, 1000, 1024, 4096, 65535, 65536]), -1i64..=1).prop_map(|(m, d)| Some((m as i64 + d) as usize))];
+                (gen::records(p), prop_oneof![2 => Just(None), 1 => gen::records(pa).prop_map(Some)], poly).prop_map(move |(unit, alt, poly)| CovCase { unit, copies, k, bin_size, bin_count, norm, threads, alt: if poly.is_some() { None } else { alt }, poly })
             })
             .boxed()
     }
